@@ -120,6 +120,7 @@ func (p *Program) toolBounded(opts checkOpts) (*Obligation, *boundedStats) {
 		"reference lists without trailing newline / with blank lines inserted",
 		"0, 1, 2048, 4096, 8192 words (the largest well over 64 KiB)",
 		"random words over every letter and combining mark occurring in any list plus L*/M* representatives of Latin, Han, Hiragana, Katakana, Hangul",
+		"one run in which the first response for every file breaks off half way (the tool may give up; if it reports success its output must still be exact)",
 	}}
 	fail := func(f string, a ...interface{}) (*Obligation, *boundedStats) {
 		stats.Failure = fmt.Sprintf(f, a...)
@@ -147,6 +148,8 @@ func (p *Program) toolBounded(opts checkOpts) (*Obligation, *boundedStats) {
 	// server
 	var mu sync.Mutex
 	files := map[string][]byte{}
+	flaky := false             // the first response for each file breaks off half way
+	served := map[string]int{} // requests seen per file in the current run
 	ln, err := net.Listen("tcp", "127.0.0.1:0")
 	if err != nil {
 		return fail("listen: %v", err)
@@ -154,10 +157,21 @@ func (p *Program) toolBounded(opts checkOpts) (*Obligation, *boundedStats) {
 	srv := &http.Server{Handler: http.HandlerFunc(func(w http.ResponseWriter, r *http.Request) {
 		mu.Lock()
 		data, ok := files[filepath.Base(r.URL.Path)]
+		served[filepath.Base(r.URL.Path)]++
+		cut := flaky && served[filepath.Base(r.URL.Path)] == 1 && len(data) > 1
 		mu.Unlock()
 		if !ok {
 			http.NotFound(w, r)
 			return
+		}
+		if cut {
+			// announce the whole body, deliver part of it, then drop the connection
+			w.Header().Set("Content-Length", strconv.Itoa(len(data)))
+			_, _ = w.Write(data[:len(data)/2])
+			if f, ok := w.(http.Flusher); ok {
+				f.Flush()
+			}
+			panic(http.ErrAbortHandler)
 		}
 		_, _ = w.Write(data)
 	})}
@@ -186,8 +200,10 @@ func (p *Program) toolBounded(opts checkOpts) (*Obligation, *boundedStats) {
 	if opts.tier == "thorough" {
 		runs = 500
 	}
-	runOnce := func(inputs map[string][]byte) (string, string, string) {
+	runOnce := func(inputs map[string][]byte, breakFirst bool) (string, string, string) {
 		mu.Lock()
+		flaky = breakFirst
+		served = map[string]int{}
 		files = map[string][]byte{}
 		for stem, d := range inputs {
 			files[stem+".txt"] = d
@@ -208,6 +224,11 @@ func (p *Program) toolBounded(opts checkOpts) (*Obligation, *boundedStats) {
 		var buf bytes.Buffer
 		c.Stdout, c.Stderr = &buf, &buf
 		if err := c.Run(); err != nil {
+			if breakFirst {
+				// a download that broke off may make the tool give up; it must not make it write something else
+				stats.Runs++
+				return "", "", ""
+			}
 			return "tool failed: " + err.Error() + " " + trunc(buf.String(), 300), "", ""
 		}
 		stats.Runs++
@@ -281,7 +302,7 @@ func (p *Program) toolBounded(opts checkOpts) (*Obligation, *boundedStats) {
 			}
 			inputs[stem] = []byte(data)
 		}
-		if msg, stem, in := runOnce(inputs); msg != "" {
+		if msg, stem, in := runOnce(inputs, run == 6); msg != "" {
 			stats.FailTarget = stem
 			stats.FailInput = trunc(in, 400)
 			return fail("run %d target %s: %s", run, stem, msg)
